@@ -57,6 +57,29 @@ type afterObs struct {
 	AlivePids    []int
 }
 
+var (
+	unprivOnce sync.Once
+	unprivYes  bool
+)
+
+// unprivOK: the harness runs as root AND uid 65534 can execute this binary (it cannot when the
+// framework is checked out below a directory such as /root that other users may not traverse);
+// otherwise the batches that would run unprivileged run as the current user.
+func unprivOK() bool {
+	unprivOnce.Do(func() {
+		if os.Getuid() != 0 {
+			return
+		}
+		cmd := exec.Command(selfPath(), "unpriv-probe")
+		cmd.SysProcAttr = &syscall.SysProcAttr{Credential: &syscall.Credential{Uid: 65534, Gid: 65534}}
+		if err := cmd.Start(); err == nil {
+			cmd.Wait()
+			unprivYes = true
+		}
+	})
+	return unprivYes
+}
+
 func selfPath() string {
 	p, err := os.Executable()
 	if err != nil {
@@ -902,7 +925,7 @@ func runTsLife(tier string, seed int64, model string, replay string) *corr.Resul
 			s, _ := strconv.ParseInt(f[1], 10, 64)
 			i, _ := strconv.Atoi(f[2])
 			b := genIsoBatch(s, i)
-			jobs = append(jobs, &job{id: replay, iso: b, spec: &b.spec, unpriv: os.Getuid() == 0 && i%3 == 0})
+			jobs = append(jobs, &job{id: replay, iso: b, spec: &b.spec, unpriv: unprivOK() && i%3 == 0})
 		case f[0] == "dl" && len(f) == 4:
 			s, _ := strconv.ParseInt(f[1], 10, 64)
 			d, _ := strconv.Atoi(f[2])
@@ -925,7 +948,7 @@ func runTsLife(tier string, seed int64, model string, replay string) *corr.Resul
 		}
 		for i := 0; i < nIso; i++ {
 			b := genIsoBatch(seed, i)
-			jobs = append(jobs, &job{id: fmt.Sprintf("iso:%d:%d", seed, i), iso: b, spec: &b.spec, unpriv: os.Getuid() == 0 && i%3 == 0})
+			jobs = append(jobs, &job{id: fmt.Sprintf("iso:%d:%d", seed, i), iso: b, spec: &b.spec, unpriv: unprivOK() && i%3 == 0})
 		}
 	}
 
@@ -1185,5 +1208,8 @@ func runTsLife(tier string, seed int64, model string, replay string) *corr.Resul
 	}
 	res.Rule = "C04: scripts (of batches of 4–16 run in parallel by one RunT) that make at least one probe and start a helper process, register a deferred function or end other than by passing; each script's observations are compared with the Lean model's solo prediction. C17: every script of a deadline batch is one evaluation (coarse outcome ∈ model executions, message attribution, plan timing with guard bands)"
 	res.Extra["guard_ms"] = map[string]int{"early": guardEarlyMs, "late": guardLateMs}
+	if os.Getuid() == 0 && !unprivOK() {
+		res.Observations = append(res.Observations, "uid 65534 cannot execute "+selfPath()+": the batches meant to run unprivileged (read-only directories as a real obstacle) ran as root")
+	}
 	return res
 }
